@@ -1961,6 +1961,13 @@ int EGLPNUM_TYPENAME_ILLlib_chgsense (
 		case 'R':									/* Range constraint, we will set its upper bound
 																 once we call EGLPNUM_TYPENAME_QSchange_range, by default it 
 																 will be zero, i.e. an equation. */
+			if (!qslp->rangeval && qslp->rowsize > 0)
+			{
+				int r;
+				qslp->rangeval = EGLPNUM_TYPENAME_EGlpNumAllocArray (qslp->rowsize);
+				for (r = 0; r < qslp->nrows; r++)
+					EGLPNUM_TYPENAME_EGlpNumZero (qslp->rangeval[r]);
+			}
 			qslp->sense[rowlist[i]] = 'R';
 			EGLPNUM_TYPENAME_EGlpNumZero(qslp->lower[j]);
 			EGLPNUM_TYPENAME_EGlpNumZero(qslp->upper[j]);
